@@ -65,8 +65,11 @@ type stimCase struct {
 	PlugAt   string   `json:"plugin_at,omitempty"`  // open | handler
 	PlugN    string   `json:"plugin_notif_hex,omitempty"`
 	Delivery string   `json:"expect_delivery_hex,omitempty"` // length-sweep: body that must be delivered
-	// Cfg varies the session the stimulus meets: "" (local hold default, remote 90) | lhold0 | rhold0 | lhold3 | ibgp | rcap6
+	// Cfg varies the session the stimulus meets: "" (local hold default, remote 90) | lhold0 | rhold0 | lhold3 | ibgp | rcap6 | slowclose
 	Cfg string `json:"cfg,omitempty"`
+	// DelayMs: the remote waits that long (virtual time) after the state was reached before it sends the
+	// stimulus; what corebgp sends meanwhile (KEEPALIVEs, the plugin's UPDATE of lhold3w) is read and set aside
+	DelayMs int `json:"delay_ms,omitempty"`
 }
 
 // stimCaps: capabilities the remote advertises besides its 4-octet AS (rcap6: RFC 8654 Extended Message,
@@ -86,7 +89,7 @@ func stimCfg(cfg string) (lhold int, rhold uint16, ras uint32) {
 		lhold = 0
 	case "rhold0":
 		rhold = 0
-	case "lhold3":
+	case "lhold3", "lhold3w":
 		lhold = 3
 	case "ibgp":
 		ras = 65001
@@ -124,6 +127,20 @@ func runStim(cs stimCase, trace bool) (*stimObs, *vrt.Exec) {
 	s := &Sess{LocalAS: 65001, RemoteAS: ras, Hold: lhold, Inbound: cs.Inbound, Horizon: 20 * time.Second, Reconnect: cs.Expect == "second-connection",
 		Plugin: func(w *world.World) *world.Plugin {
 			p := &world.Plugin{W: w, Peer: "P1", Marker: true, NoYield: true}
+			if cs.Cfg == "lhold3w" {
+				// hold 3 s (KEEPALIVE every second) and one plugin write 1.7 s into the session, which postpones
+				// the next KEEPALIVE to 2.7 s
+				p.OnEst = func(pp *world.Plugin, s int, wr corebgp.UpdateMessageWriter) {
+					vrt.GoWorld("late-writer", func() {
+						vrt.Sleep(1700 * time.Millisecond)
+						wr.WriteUpdate([]byte("LATE")) // nolint: errcheck
+					})
+				}
+			}
+			if cs.Cfg == "slowclose" {
+				// OnClose takes 3 s: the connection must not stay open that long (the remote watches 1 s)
+				p.OnCloseFn = func(*world.Plugin, int) { vrt.Sleep(3 * time.Second) }
+			}
 			if cs.PlugAt == "open" {
 				p.OpenNotif = func(_ netip.Addr, _ []corebgp.Capability) *corebgp.Notification { return mkNotif() }
 			}
@@ -153,6 +170,14 @@ func runStim(cs stimCase, trace bool) (*stimObs, *vrt.Exec) {
 					return
 				}
 				o.reached = true
+			}
+			if cs.DelayMs > 0 {
+				vrt.Sleep(time.Duration(cs.DelayMs) * time.Millisecond)
+				for r.C.Pending() > 0 {
+					if _, err := r.ReadMsg(); err != nil {
+						break
+					}
+				}
 			}
 			start := len(r.Rx)
 			var stream []byte
@@ -191,7 +216,11 @@ func runStim(cs stimCase, trace bool) (*stimObs, *vrt.Exec) {
 				o.after = append([]wire.Msg{}, r.Rx[start:]...)
 				return
 			}
-			r.Deadline(5 * time.Second)
+			if cs.Cfg == "slowclose" {
+				r.Deadline(time.Second)
+			} else {
+				r.Deadline(5 * time.Second)
+			}
 			r.Drain()
 			o.after = append([]wire.Msg{}, r.Rx[start:]...)
 			o.eof, o.timedOut, o.frameErr = r.EOF, r.TimedOut, r.FrameErr
@@ -739,7 +768,10 @@ func c09Check(c *harness.Ctx) {
 							return
 						}
 					}
-					for _, cfg := range []string{"lhold0", "rhold0", "lhold3", "ibgp", "rcap6"} {
+					for _, cfg := range []string{"lhold0", "rhold0", "lhold3", "ibgp", "rcap6", "slowclose"} {
+						if cfg == "slowclose" && (st != stEstablished || legal[st][name]) {
+							continue
+						}
 						cc := cs
 						cc.Cfg = cfg
 						if name == "open" {
@@ -778,6 +810,33 @@ func c09Check(c *harness.Ctx) {
 						if !run(cs) {
 							return
 						}
+					}
+				}
+			}
+			if st == stEstablished {
+				// late in a session with running timers and a plugin write in between (a deadline, a flag or a
+				// buffer left behind by the periodic KEEPALIVE path must not spoil the reaction)
+				for _, name := range []string{"open", "update", "keepalive"} {
+					for _, d := range []int{1300, 2300, 2699, 2701} {
+						cs := stimCase{Kind: "table", State: st, Inbound: inbound, Msg: name + "-late", Stimulus: hex.EncodeToString(msgs[name]), Cfg: "lhold3w", DelayMs: d}
+						if legal[st][name] {
+							cs.Expect = "progress"
+						} else {
+							cs.Expect, cs.Admit = "notif", [][3]int{{5, st, typ[name]}}
+						}
+						if !run(cs) {
+							return
+						}
+					}
+				}
+				// a slow OnClose must not keep the connection open: received NOTIFICATION, FIN
+				for _, stim := range [][]byte{wire.Notification(6, 2, nil), wire.Notification(3, 1, []byte{1}), nil} {
+					cs := stimCase{Kind: "table", State: st, Inbound: inbound, Msg: "slow-onclose", Stimulus: hex.EncodeToString(stim), Expect: "silent-close", Cfg: "slowclose"}
+					if stim == nil {
+						cs.End = "fin"
+					}
+					if !run(cs) {
+						return
 					}
 				}
 			}
